@@ -8,7 +8,7 @@
     [never_fails] = the solver reports success (an integration failure stops the protocol early:
     modelled, exercised by the correspondence, not part of the property). *)
 From Coq Require Import QArith List Bool NArith.
-From Sim Require Import Integrator Simulator Protocol SimExec GenSimFacts SimProofs ProtocolProofs.
+From Sim Require Import Integrator Simulator Protocol SimExec GenSimFacts SimProofs ProtocolProofs SteadyProofs.
 Import ListNotations.
 Open Scope Q_scope.
 
@@ -171,3 +171,70 @@ Example C14_nonvacuous :
      = [1; 2; 1 # 2; 0; 2; 1 # 2; 0].
 Proof. vm_compute. split; reflexivity. Qed.
 Print Assumptions C14_nonvacuous.
+
+(** the inputs of a call are VALUES.  In the model this is built into the operation semantics (an operation maps a
+    state and its arguments to a new state and cannot touch the arguments); spelled out for the case that matters:
+    the SAME relative grid handed to two consecutive protocol time courses (repeated cycles) asks the second call
+    for ITS OWN start + the same offsets: both calls are accepted, and the second appends exactly the points of the
+    union of its boundaries and  start2 + pts  inside (start2, start2 + T_n], where start2 is where the first call
+    ended.  (The harness checks the other half of the tie on the implementation: after every call the caller's
+    ndarray still holds the values it was given.) *)
+Theorem C14_same_grid_twice :
+  forall (Y P U : Type) (flow : P -> Q -> Y -> Q -> Y) (solve_ok : P -> Q -> Y -> Q -> bool) (pupd : P -> U -> P)
+         (s : sim Y P) (steps : list (Q * U)) (pts : list Q),
+    (forall p t y t1, solve_ok p t y t1 = true) -> Inv2 Y P s -> has_errors Y P s = false ->
+    pts <> [] -> steps <> [] -> Forall (fun st : Q * U => 0 < fst st) steps -> 0 < lastq pts 0 ->
+    exists s1 s2,
+      simulate_protocol_time_course Y P U flow solve_ok pupd gen_sim_facts s (make_protocol U steps) pts true = (s1, Done)
+      /\ simulate_protocol_time_course Y P U flow solve_ok pupd gen_sim_facts s1 (make_protocol U steps) pts true = (s2, Done)
+      /\ Inv2 Y P s2 /\ has_errors Y P s2 = false
+      /\ (let start := reached Y P s1 in
+          let rows' := map (fun r : Q * U => (fst r + start, snd r)) (make_protocol U steps) in
+          Qeql (index_of Y P s2)
+               (index_of Y P s1
+                ++ filter (fun t => Qltb start t && Qle_bool t (lastq (map fst rows') start))
+                          (qunion (map fst rows') (map (fun t => t + start) pts))))
+      /\ reached Y P s1 == lastq (map fst (map (fun r : Q * U => (fst r + reached Y P s, snd r)) (make_protocol U steps)))
+                                 (reached Y P s)
+      /\ nsegs Y P s2 = (nsegs Y P s + length steps + length steps)%nat.
+Proof. exact (fun Y P U flow solve_ok pupd => ptc_same_grid_twice Y P U flow solve_ok pupd gen_sim_facts (good_of_pinned _ C14_facts_pinned)). Qed.
+Print Assumptions C14_same_grid_twice.
+
+(** a protocol that CONTINUES after update_variable(s), from ANY well-formed state ([Wf]: the result ends in a row
+    and the index is increasing -- every state reachable without a steady-state run, and also the state right after
+    a steady-state run, see PropsC04.C04_steady_on_fresh_integrator): the override is applied to the state the next
+    segment starts from, the invariant holds, the protocol is accepted step by step from the time reached (one
+    segment per step, each recorded with its step's values, ending at reached + T_n), and the rows of a step
+    simulated in that state are the solution under the step's values from the OVERRIDDEN state *)
+Theorem C14_continuation :
+  forall (Y P U O : Type) (flow : P -> Q -> Y -> Q -> Y) (solve_ok : P -> Q -> Y -> Q -> bool) (pupd : P -> U -> P)
+         (yovr : Y -> O -> Y) (s : sim Y P) (o : O) (steps : list (Q * U)) (k : nat),
+    (forall p t y t1, solve_ok p t y t1 = true) -> Wf Y P s -> has_errors Y P s = false ->
+    Forall (fun st : Q * U => 0 < fst st) steps ->
+    let s' := fst (update_variables Y P O yovr gen_sim_facts s o) in
+    Inv2 Y P s' /\ i_y0 (s_int s') = yovr (start_state Y P s) o
+    /\ index_of Y P s' = index_of Y P s /\ reached Y P s' = reached Y P s
+    /\ (exists s2, simulate_protocol Y P U flow solve_ok pupd gen_sim_facts s' (make_protocol U steps) (S k) = (s2, Done)
+          /\ Inv2 Y P s2 /\ has_errors Y P s2 = false
+          /\ pars_list Y P s2 = pars_list Y P s ++ scan_pars P U pupd (s_mp s) (map snd steps)
+          /\ nsegs Y P s2 = (nsegs Y P s + length steps)%nat
+          /\ (steps <> [] -> reached Y P s2 == reached Y P s + lastq (map fst (make_protocol U steps)) 0))
+    /\ (forall u t_end m s1,
+          simulate Y P flow solve_ok gen_sim_facts (update_parameters Y P U pupd s' u) t_end (Some (S m)) = (s1, Done) ->
+          has_errors Y P s1 = false ->
+          let s0 := update_parameters Y P U pupd s' u in
+          s_mp s0 = pupd (s_mp s) u /\ i_y0 (s_int s0) = yovr (start_state Y P s) o
+          /\ appended Y P flow s0 s1 (sim_h Y P s0 t_end m) (sim_rest Y P s0 t_end m)
+          /\ reached Y P s1 == t_end).
+Proof. exact (fun Y P U O flow solve_ok pupd yovr => protocol_after_override Y P U O flow solve_ok pupd yovr gen_sim_facts (good_of_pinned _ C14_facts_pinned)). Qed.
+Print Assumptions C14_continuation.
+
+(** non-vacuity of [C14_same_grid_twice]: simulate(2); two cycles of a 3 s protocol, both given the relative grid
+    [1/2; 1; 9/4; 3]: the second cycle returns 5 + the same offsets *)
+Example C14_same_grid_nonvacuous :
+  let st := [(1, [(0%nat, 2)]); (2, [(0%nat, 1 # 2)])] in
+  let ops : list xop := [OSim 2 (Some 2%nat); OProtTc st [1 # 2; 1; 9 # 4; 3] true; OProtTc st [1 # 2; 1; 9 # 4; 3] true] in
+  xindex (xrun gen_sim_facts (xnew [1; 1] [1; 1 # 2; 0; 0]) ops)
+    = [0; 1; 2; 5 # 2; 3; 17 # 4; 5; 11 # 2; 6; 29 # 4; 8].
+Proof. vm_compute. reflexivity. Qed.
+Print Assumptions C14_same_grid_nonvacuous.
